@@ -264,6 +264,8 @@ def OpOk (Vf : VFun) (w : World) : Op → Prop
   | .get s d _ _ V => d = .vol → VLine Vf w s V
   | .put s d _ _ _ V => d = .vol → VLine Vf w s V
   | .putRow s d _ _ V => d = .vol → VLine Vf w s V
+  | .getData s d _ _ _ V => d = .vol → VLine Vf w s V
+  | .setData s d _ _ _ _ V => d = .vol → VLine Vf w s V
   | .getFlow s u _ _ V => ∀ f, w.flowUnit u = .ok (.vol, f) → VLine Vf w s V
   | .setFlow s u _ _ _ V => ∀ f, w.flowUnit u = .ok (.vol, f) → VLine Vf w s V
   | _ => True
@@ -729,6 +731,49 @@ theorem exec_vvalid {Vf : VFun} {w w' : World} {op : Op} {out : Out} (h : Inv w.
         split at hw1
         · cases hw1
         · exact vvalid_of_vcs hv (setF_vcs hw1)
+    | getData s d u ph i V =>
+      simp only [Except.map, World.getData] at he
+      split at he
+      · cases he
+      · rename_i r hr
+        obtain ⟨w1, vid, x⟩ := r
+        cases he
+        split at hr
+        · cases hr
+        · split at hr
+          · cases hr
+          · rename_i w2 vid2 x2 hg2
+            cases hr
+            exact getElem_vvalid h (hsid s (by simp [Op.sids])) hv hok hg2
+    | setData s d u ph i x V =>
+      simp only [Except.map, World.setData] at he
+      split at he
+      · cases he
+      · rename_i r hr
+        obtain ⟨w1, vid⟩ := r
+        cases he
+        split at hr
+        · cases hr
+        · exact putElem_vvalid h (hsid s (by simp [Op.sids])) hv hok hr
+    | getProp s d u V =>
+      simp only [Except.map] at he
+      split at he
+      · cases he
+      · cases he; exact hv
+    | setProp s d u x V =>
+      simp only [Except.map, World.setProp] at he
+      split at he
+      · cases he
+      · rename_i w1 hw1
+        cases he
+        split at hw1
+        · cases hw1
+        · exact vvalid_of_vcs hv (setF_vcs hw1)
+    | unitFor d u =>
+      simp only [Except.map] at he
+      split at he
+      · cases he
+      · cases he; exact hv
 
 /-- the hypothesis on the parameters of a whole history -/
 def RunOk (Vf : VFun) : World → List Op → Prop
@@ -961,6 +1006,49 @@ theorem set_get_total {w w' : World} {sid : Nat} {u u' : String} {x : Rat} {V : 
   have : a = b := by rw [ha] at hb; exact Option.some.inj hb
   subst this
   rw [h1, (factor_consistent a a a hfa hfa).1, mul_one]
+
+/-! ## units on one view: `get_data / set_data`, `get_property / set_property`, `units=` -/
+
+/-- **view_dimension_guard.**  A unit whose dimension is not the dimension of the view / property it is applied to — a
+mass unit on `imol`, a molar unit on `F_vol`, … or a non-flow unit — is rejected by `get_data`, `set_data`,
+`get_property`, `set_property` and the `units=` conversion, whatever was converted before (the model has no memo to be
+poisoned), and the state is left as it was. -/
+theorem view_dimension_guard {w : World} {u : String} {e : UnitDef} {d : Dim}
+    (hf : findUnit w.units u = some e) (hd : e.dim ≠ d ∨ d = .other)
+    (sid : Nat) (ph : Option Char) (i : Nat) (x : Rat) (V : Mat) :
+    w.viewUnit d u = .error .dimension ∧
+    w.getData sid d u ph i V = .error .dimension ∧ w.setData sid d u ph i x V = .error .dimension ∧
+    w.getProp sid d u V = .error .dimension ∧ w.setProp sid d u x V = .error .dimension ∧
+    w.step (.getData sid d u ph i V) = w ∧ w.step (.setData sid d u ph i x V) = w ∧
+    w.step (.getProp sid d u V) = w ∧ w.step (.setProp sid d u x V) = w := by
+  have hu : w.viewUnit d u = .error .dimension := by
+    simp only [World.viewUnit, hf]
+    rcases hd with hd | hd
+    · simp [hd]
+    · simp [hd]
+  have h1 : w.getData sid d u ph i V = .error .dimension := by simp [World.getData, hu]
+  have h2 : w.setData sid d u ph i x V = .error .dimension := by simp [World.setData, hu]
+  have h3 : w.getProp sid d u V = .error .dimension := by simp [World.getProp, hu]
+  have h4 : w.setProp sid d u x V = .error .dimension := by simp [World.setProp, hu]
+  refine ⟨hu, h1, h2, h3, h4, ?_, ?_, ?_, ?_⟩ <;>
+  · simp only [World.step, World.exec]
+    split_ifs <;> simp [h1, h2, h3, h4, Except.map]
+
+theorem viewUnit_ok {w : World} {u : String} {e : UnitDef} (hf : findUnit w.units u = some e)
+    (ho : e.dim ≠ .other) : w.viewUnit e.dim u = .ok e.factor := by
+  simp [World.viewUnit, hf, ho]
+
+/-- **view_unit_agrees_with_flow_unit.**  For a unit of the view's own dimension the factor `get_data` / `get_property` use
+is the one `get_flow` / `get_total_flow` use: the two families of entry points convert identically. -/
+theorem view_unit_agrees_with_flow_unit {w : World} {u : String} {e : UnitDef} (hf : findUnit w.units u = some e)
+    (ho : e.dim ≠ .other) (sid : Nat) (ph : Option Char) (i : Nat) (x : Rat) (V : Mat) :
+    w.getData sid e.dim u ph i V = w.getFlow sid u ph i V ∧
+    w.setData sid e.dim u ph i x V = w.setFlow sid u ph i x V ∧
+    w.getProp sid e.dim u V = w.getTotal sid u V ∧ w.setProp sid e.dim u x V = w.setTotal sid u x V := by
+  have h1 := viewUnit_ok hf ho
+  have h2 := flowUnit_ok hf ho
+  simp [World.getData, World.setData, World.getProp, World.setProp, World.getFlow, World.setFlow, World.getTotal,
+    World.setTotal, h1, h2]
 
 /-! ## write then read through a view -/
 
